@@ -96,7 +96,10 @@ func drawLiteral(t *rapid.T, o ExprOpts) string {
 		}
 		return strconv.Quote(s)
 	case 3:
-		// hand-written escapes as a user would type them
+		// hand-written escapes as a user would type them; now and then a long literal (beyond any display or description limit)
+		if rapid.IntRange(0, 5).Draw(t, "longlit") == 0 {
+			return strconv.Quote(strings.Repeat(rapid.SampledFrom([]string{"long text ", "é", "ab\"c", "x"}).Draw(t, "unit"), rapid.IntRange(13, 140).Draw(t, "reps")))
+		}
 		return rapid.SampledFrom([]string{`"a\nb"`, `"a\"b"`, `"é"`, `"tab\there"`, `""`, `"(("`, `"))"`, `"@contact"`, `"it's"`, `"a\\b"`, `"😀"`}).Draw(t, "esc")
 	case 4, 5, 6:
 		s := drawNumberString(t, false)
